@@ -811,6 +811,10 @@ pub open spec fn infos_small(infos: Option<&[StoreInfo]>) -> bool {
     infos is Some ==> forall|i: int| 0 <= i < infos->Some_0@.len() && (#[trigger] infos->Some_0@[i]).data is Some
         ==> rec_size(infos->Some_0@[i].data->Some_0@) <= 0xffff_ffff_ffff
 }
+/// every node of the map is stored under its own index
+pub open spec fn map_keyed(nodes: IntMap<Option<Node>>) -> bool {
+    forall|k: u64| #![trigger nodes@[k]] nodes@.contains_key(k) && nodes@[k] is Some ==> nodes@[k]->Some_0.index == k
+}
 pub open spec fn map_small(nodes: IntMap<Option<Node>>) -> bool {
     forall|k: u64| #![trigger nodes@[k]] nodes@.contains_key(k) && nodes@[k] is Some ==> nodes@[k]->Some_0.length <= 0xffff_ffff_ffff
 }
@@ -825,6 +829,10 @@ impl MerkleTree {
         else { None }
     }
 
+    /// pending nodes are stored under their own index (add_node / commit insert `node.index -> node`)
+    pub open spec fn unflushed_keyed(&self) -> bool {
+        forall|k: u64| #![trigger self.unflushed@[k]] self.unflushed@.contains_key(k) ==> self.unflushed@[k].index == k
+    }
     /// the replica holds a usable node for `index` (not blank, not being truncated away)
     pub open spec fn present(&self, index: u64, nodes: &IntMap<Option<Node>>) -> bool {
         if self.unflushed@.contains_key(index) { !(self.unflushed@[index].blank || (self.truncated && self.unflushed@[index].index >= 2 * self.truncate_to)) }
@@ -847,7 +855,9 @@ impl MerkleTree {
         // and nothing is read from disk for a node that is already known
         r is Ok && r->Ok_0 is Left ==> self.trusted(index, nodes) is None && !self.unflushed@.contains_key(index) && !nodes@.contains_key(index),
         // Some / None tell exactly whether the node is present
-        r is Ok && r->Ok_0 is Right ==> (r->Ok_0->Right_0 is Some) == self.present(index, nodes)
+        r is Ok && r->Ok_0 is Right ==> (r->Ok_0->Right_0 is Some) == self.present(index, nodes),
+        // ... and it is the node of that index
+        self.unflushed_keyed() && map_keyed(*nodes) && r is Ok && r->Ok_0 is Right && r->Ok_0->Right_0 is Some ==> r->Ok_0->Right_0->Some_0.index == index
     @*/
     /*@ fn src/tree/merkle_tree.rs MerkleTree::required_node
     tags: C09 C03 C04
@@ -856,7 +866,8 @@ impl MerkleTree {
         self.t_wf(), index < 0x4_0000_0000_0000
     ensures:
         r is Ok && r->Ok_0 is Left ==> r->Ok_0->Left_0.store == Store::Tree && r->Ok_0->Left_0.index == 40 * index && !r->Ok_0->Left_0.allow_miss,
-        r is Ok && r->Ok_0 is Right ==> self.trusted(index, nodes) is Some && Node::eqv(r->Ok_0->Right_0, self.trusted(index, nodes)->Some_0)
+        r is Ok && r->Ok_0 is Right ==> self.trusted(index, nodes) is Some && Node::eqv(r->Ok_0->Right_0, self.trusted(index, nodes)->Some_0),
+        self.unflushed_keyed() && map_keyed(*nodes) && r is Ok && r->Ok_0 is Right ==> r->Ok_0->Right_0.index == index
     @*/
     /*@ fn src/tree/merkle_tree.rs MerkleTree::optional_node
     tags: C09 C03
@@ -875,11 +886,12 @@ impl MerkleTree {
     ensures:
         *final(self) == *old(self), r is Ok,
         // records whose size field is below 2^48 give nodes whose length is
-        infos_small(infos) ==> map_small(r->Ok_0)
+        infos_small(infos) ==> map_small(r->Ok_0),
+        map_keyed(r->Ok_0)
     sub `for info in infos \{` => `for info in it: infos.iter() {`
     loop 1:
         invariant
-            *self == *old(self),
+            *self == *old(self), map_keyed(nodes),
             forall|i: int| 0 <= i < infos@.len() ==> ((#[trigger] infos@[i]).miss || (infos@[i].data is Some && infos@[i].data->Some_0@.len() >= 8)),
             infos_small(Some(infos)) ==> map_small(nodes)
     after `let node = node_from_bytes(&index, info.data.as_ref().unwrap())?;`:
